@@ -22,6 +22,17 @@
 #include <tbox/base/assert.h>
 #include <tbox/event/loop.h>
 #include <tbox/event/timer_event.h>
+#ifdef TBOX_VERIF_HOOKS
+#include <tbox/event/verif_hooks.h>
+namespace {
+//! with a virtual steady clock installed, use it here too (pause/resume arithmetic)
+void VerifAdjustNow(std::chrono::steady_clock::time_point &now) {
+    auto func = tbox::event::verif::GetSteadyClockMsFunc();
+    if (func != nullptr)
+        now = std::chrono::steady_clock::time_point(std::chrono::milliseconds(func()));
+}
+}
+#endif
 
 namespace tbox {
 namespace flow {
@@ -59,6 +70,9 @@ void SleepAction::onStart() {
 
     //! 计算出到期时间点并保存到 finish_time_
     auto now = std::chrono::steady_clock::now();
+#ifdef TBOX_VERIF_HOOKS
+    VerifAdjustNow(now);
+#endif
     finish_time_ = now + time_span;
 
     timer_->initialize(time_span, event::Event::Mode::kOneshot);
@@ -73,6 +87,9 @@ void SleepAction::onStop() {
 void SleepAction::onPause() {
     //! 计算剩余时长，并保存到 remain_time_span_ 中
     auto now = std::chrono::steady_clock::now();
+#ifdef TBOX_VERIF_HOOKS
+    VerifAdjustNow(now);
+#endif
     remain_time_span_ = std::chrono::duration_cast<std::chrono::milliseconds>(finish_time_ - now);
 
     timer_->disable();
